@@ -237,9 +237,9 @@ fn case_strategy() -> impl Strategy<Value = Case> {
         proptest::collection::vec(-3.0f64..3.0, 12),
         proptest::collection::vec(deriv(), 12 * 8),
         proptest::collection::vec(deriv(), 12),
-        (any::<u8>(), any::<bool>(), prop::bool::weighted(0.3), prop::sample::select(vec![0u8, 0, 1, 1, 2]), prop::bool::weighted(0.15), scale_exp(), scale_exp()),
+        (any::<u8>(), any::<bool>(), prop::bool::weighted(0.3), prop::sample::select(vec![0u8, 0, 1, 1, 2]), prop::bool::weighted(0.15), scale_exp(), scale_exp(), prop::bool::weighted(0.2)),
     )
-        .prop_map(|(mode, n, extra, l, u, d, pseed, xrows, b, da, db, (perm_rot, perm_rev, identity_l, layout, square_lsq, a_exp, b_exp))| {
+        .prop_map(|(mode, n, extra, l, u, d, pseed, xrows, b, da, db, (perm_rot, perm_rev, identity_l, layout, square_lsq, a_exp, b_exp, small_ints))| {
             let cols = if extra > 0 { n.min(6) } else { n };
             let rows = cols + extra;
             // least squares is also allowed (and then used) on a square system
@@ -258,8 +258,19 @@ fn case_strategy() -> impl Strategy<Value = Case> {
                 }
             }
             let mut rows_v: Vec<Vec<f64>> = sq;
+            // a fifth of the systems have small integer entries (-3..3): exact ties between a pivot
+            // and the entries below it, multipliers of exactly +-1, columns of ones - what
+            // Vandermonde, incidence and constraint matrices look like and what independent
+            // continuous draws never produce (singular results are skipped by the conditioning test)
+            if small_ints {
+                for r in rows_v.iter_mut() {
+                    for x in r.iter_mut() {
+                        *x = (*x * 2.5).round().clamp(-3.0, 3.0);
+                    }
+                }
+            }
             for e in 0..extra {
-                rows_v.push((0..cols).map(|j| xrows[e * 8 + j]).collect());
+                rows_v.push((0..cols).map(|j| if small_ints { (xrows[e * 8 + j] * 1.5).round() } else { xrows[e * 8 + j] }).collect());
             }
             // shuffle rows (forces pivoting: zeros land on the diagonal)
             let mut order: Vec<usize> = (0..rows).collect();
@@ -503,6 +514,7 @@ impl Property for C13 {
         let amax = c.a.iter().fold(0.0f64, |m, x| m.max(x.0.abs()));
         v.label_if(amax < 1e-9, "scale:tiny-matrix");
         v.label_if(amax > 1e9, "scale:huge-matrix");
+        let integer_entries = { let unit = c.a.iter().map(|x| x.0.abs()).filter(|x| *x > 0.0).fold(f64::INFINITY, f64::min); unit.is_finite() && c.a.iter().all(|x| (x.0 / unit).fract() == 0.0 && (x.0 / unit).abs() <= 3.0) };
         let d = c.dense();
         // the square system actually solved: A itself or the normal equations
         let (m0, m1, m2, c0, c1, c2): (M, [M; 3], [[M; 3]; 3], Vec<f64>, [Vec<f64>; 3], [[Vec<f64>; 3]; 3]) = if c.lsq {
@@ -550,6 +562,7 @@ impl Property for C13 {
         let has_deriv = d.a1.iter().any(|m| m.iter().flatten().any(|x| *x != 0.0)) || d.b1.iter().any(|m| m.iter().any(|x| *x != 0.0));
         v.nt(n >= 2 && !swaps.is_empty() && has_deriv);
         v.label_if(!swaps.is_empty(), "pivot:row-swap-needed");
+        v.label_if(integer_entries && n >= 2, "entries:small-integers");
         v.label_if(swaps.iter().any(|j| *j >= 2), "pivot:swap-in-column>=2");
         v.label_if(!c.lsq && (0..n).any(|j| d.a0[j][j] == 0.0), "pivot:zero-on-diagonal");
         v.label(intern(format!("size:{}", n)));
@@ -647,7 +660,7 @@ impl Property for C13 {
     }
 
     fn rule(&self) -> String {
-        "random systems: square 1-8 (least squares allowed on 15% of them) and tall up to 14x6 (least squares), real parts built as (unit lower, or identity) x (sparse upper with |diagonal| in [0.5,2]) with the rows shuffled so that zeros land on the diagonal and partial pivoting must swap (also in later columns); A (values and derivative content) and b are each scaled by an exact power of two (1 in 75% of draws, otherwise 2^+-35..70); A and b are handed over as row-major, column-major (transposed view, as numpy's A.T arrives) or strided views; entries lifted to derivative content over 3 names with differing variable orders; element types dsolve::<f64|Dual|Dual2|Number> (Number mixes floats with one dual kind in A and b) and fdsolve with b of f64|Dual|Dual2. Oracle: the returned x, read by name, must satisfy A0 x0 = b0, A0 x_k + A_k x0 = b_k and A_kl x0 + A_k x_l + A_l x_k + A0 x_kl = b_kl (for least squares the same identities for A^T A x = A^T b) with residuals <= 1e-9 x cond x sum of absolute terms; solving the row-permuted system gives the same x. Draws with cond >= 1e6 are skipped and counted. Non-trivial: n >= 2, a row swap is needed, and a non-zero derivative is present.".into()
+        "random systems: square 1-8 (least squares allowed on 15% of them) and tall up to 14x6 (least squares), real parts built as (unit lower, or identity) x (sparse upper with |diagonal| in [0.5,2]) with the rows shuffled so that zeros land on the diagonal and partial pivoting must swap (also in later columns); a fifth of the systems have small integer entries (exact pivot ties, multipliers of exactly +-1); A (values and derivative content) and b are each scaled by an exact power of two (1 in 75% of draws, otherwise 2^+-35..70); A and b are handed over as row-major, column-major (transposed view, as numpy's A.T arrives) or strided views; entries lifted to derivative content over 3 names with differing variable orders; element types dsolve::<f64|Dual|Dual2|Number> (Number mixes floats with one dual kind in A and b) and fdsolve with b of f64|Dual|Dual2. Oracle: the returned x, read by name, must satisfy A0 x0 = b0, A0 x_k + A_k x0 = b_k and A_kl x0 + A_k x_l + A_l x_k + A0 x_kl = b_kl (for least squares the same identities for A^T A x = A^T b) with residuals <= 1e-9 x cond x sum of absolute terms; solving the row-permuted system gives the same x. Draws with cond >= 1e6 are skipped and counted. Non-trivial: n >= 2, a row swap is needed, and a non-zero derivative is present.".into()
     }
 
     fn floors(&self, tier: Tier) -> Vec<Floor> {
@@ -660,6 +673,7 @@ impl Property for C13 {
             Floor { label: "least-squares:square-system", min: n / 20 },
             Floor { label: "scale:tiny-matrix", min: n / 20 },
             Floor { label: "scale:huge-matrix", min: n / 20 },
+            Floor { label: "entries:small-integers", min: n / 100 },
             Floor { label: "row-permutation:checked", min: n / 3 },
             Floor { label: "layout:column-major", min: n / 5 },
             Floor { label: "layout:strided", min: n / 10 },
